@@ -1,0 +1,42 @@
+//go:build verif
+
+package parser
+
+// Contracts for the govc verifier (/verif/DESIGN.md). Package clause and comments only.
+//
+// The generated rule contexts dispatch to the listener. For the four rules the default parse context
+// filters on (C09), the generated EnterRule is under contract: a listener that implements CypherListener
+// is notified through the rule's own Enter method (ghost flag per listener and rule), anything else is not.
+
+//@ import antlr "github.com/antlr4-go/antlr/v4"
+
+//@ ghost comp notifiedUpdatingClause bool
+//@ ghost comp notifiedExplicitProcedure bool
+//@ ghost comp notifiedImplicitProcedure bool
+//@ ghost comp notifiedParameter bool
+
+//@ iface func (l CypherListener) EnterOC_UpdatingClause(c *OC_UpdatingClauseContext)
+//@   modifies notifiedUpdatingClause[l]
+//@   ensures notifiedUpdatingClause[l]
+//@ iface func (l CypherListener) EnterOC_ExplicitProcedureInvocation(c *OC_ExplicitProcedureInvocationContext)
+//@   modifies notifiedExplicitProcedure[l]
+//@   ensures notifiedExplicitProcedure[l]
+//@ iface func (l CypherListener) EnterOC_ImplicitProcedureInvocation(c *OC_ImplicitProcedureInvocationContext)
+//@   modifies notifiedImplicitProcedure[l]
+//@   ensures notifiedImplicitProcedure[l]
+//@ iface func (l CypherListener) EnterOC_Parameter(c *OC_ParameterContext)
+//@   modifies notifiedParameter[l]
+//@   ensures notifiedParameter[l]
+
+//@ func (s *OC_UpdatingClauseContext) EnterRule(listener antlr.ParseTreeListener)
+//@   modifies notifiedUpdatingClause[listener]
+//@   ensures implements(listener, CypherListener) ==> notifiedUpdatingClause[listener]
+//@ func (s *OC_ExplicitProcedureInvocationContext) EnterRule(listener antlr.ParseTreeListener)
+//@   modifies notifiedExplicitProcedure[listener]
+//@   ensures implements(listener, CypherListener) ==> notifiedExplicitProcedure[listener]
+//@ func (s *OC_ImplicitProcedureInvocationContext) EnterRule(listener antlr.ParseTreeListener)
+//@   modifies notifiedImplicitProcedure[listener]
+//@   ensures implements(listener, CypherListener) ==> notifiedImplicitProcedure[listener]
+//@ func (s *OC_ParameterContext) EnterRule(listener antlr.ParseTreeListener)
+//@   modifies notifiedParameter[listener]
+//@   ensures implements(listener, CypherListener) ==> notifiedParameter[listener]
